@@ -31,8 +31,8 @@ func (fs TarWriter) CreateDir(n NodeDirectory) error {
 		Mode:     tarMode(n.Mode),
 		ModTime:  n.MTime,
 		Xattrs:   n.Xattrs,
-		Format:   fs.format,
 	}
+	fs.headerFormat(hdr, n.Mode)
 	return fs.w.WriteHeader(hdr)
 }
 
@@ -46,8 +46,8 @@ func (fs TarWriter) CreateFile(n NodeFile) error {
 		ModTime:  n.MTime,
 		Size:     int64(n.Size),
 		Xattrs:   n.Xattrs,
-		Format:   fs.format,
 	}
+	fs.headerFormat(hdr, n.Mode)
 	if err := fs.w.WriteHeader(hdr); err != nil {
 		return err
 	}
@@ -65,8 +65,8 @@ func (fs TarWriter) CreateSymlink(n NodeSymlink) error {
 		Mode:     tarMode(n.Mode),
 		ModTime:  n.MTime,
 		Xattrs:   n.Xattrs,
-		Format:   fs.format,
 	}
+	fs.headerFormat(hdr, n.Mode)
 	return fs.w.WriteHeader(hdr)
 }
 
@@ -75,6 +75,18 @@ func (fs TarWriter) CreateSymlink(n NodeSymlink) error {
 // added in the position tar uses (04000, 02000, 01000).
 func tarMode(m os.FileMode) int64 {
 	return int64(m) | int64(FilemodeToStatMode(m)&07000)
+}
+
+// headerFormat sets the format of a header. The GNU format can't hold extended
+// attributes (archive/tar refuses to write such a header), entries that have some
+// are written with PAX headers, which GNU tar understands as well, and the plain
+// 12-bit mode PAX requires.
+func (fs TarWriter) headerFormat(hdr *gnutar.Header, m os.FileMode) {
+	hdr.Format = fs.format
+	if len(hdr.Xattrs) > 0 {
+		hdr.Format = gnutar.FormatPAX
+		hdr.Mode = int64(FilemodeToStatMode(m) & 07777)
+	}
 }
 
 func (fs TarWriter) CreateDevice(n NodeDevice) error {
@@ -92,8 +104,8 @@ func (fs TarWriter) CreateDevice(n NodeDevice) error {
 		Xattrs:   n.Xattrs,
 		Devmajor: int64(n.Major),
 		Devminor: int64(n.Minor),
-		Format:   fs.format,
 	}
+	fs.headerFormat(hdr, n.Mode)
 	return fs.w.WriteHeader(hdr)
 }
 
